@@ -120,10 +120,10 @@ impl<'a> DeferredReader<'a> {
     #[inline]
     pub fn advance(&mut self, n: usize) {
         let (next_len, overflow) = self.valid_len.overflowing_sub(n);
-        self.valid_len = next_len;
         if overflow {
             self.advance_cold();
         }
+        self.valid_len = next_len;
         self.pos_in_buf += n;
         // SAFETY ^ we already subtracted n from len and checked for overflow so we cannot overflow
         // the buffer here.
